@@ -14,13 +14,14 @@ def run(sc):
     from vsc.impl import ctor
     ctor.test_setup()
     random.seed(zlib.crc32(json.dumps(sc, sort_keys=True).encode()))
-    src = ["@vsc.randobj", "class _E(object):", "    def __init__(self):", "        self.a = vsc.rand_bit_t(3)", "        self.b = vsc.rand_bit_t(2)",
+    src = ["@vsc.randobj", "class _E(object):", "    def __init__(self, tag=0):", "        self.a = vsc.rand_bit_t(3)", "        self.b = vsc.rand_bit_t(2)",
+           "        self.tag = vsc.uint8_t(tag)",
            "    @vsc.constraint", "    def c(self):", "        self.a >= self.b",
            "@vsc.randobj", "class _C(object):", "    def __init__(self):"]
     for i, l in enumerate(sc["lists"]):
         src.append("        self.l%d = vsc.randsz_list_t(_E())" % i)
         src.append("        for _ in range(%d):" % l["pop"])
-        src.append("            self.l%d.append(_E())" % i)
+        src.append("            self.l%d.append(_E(%d + _))" % (i, 10 * (i + 1)))
     src += ["    @vsc.constraint", "    def c(self):"]
     body = []
     for i, l in enumerate(sc["lists"]):
@@ -36,6 +37,12 @@ def run(sc):
     out = []
     for k in range(sc["calls"]):
         rec = {}
+        # between the calls: clear a list and populate it with new objects (the list must then expose exactly those)
+        for li, tags in (sc.get("edits") or {}).get(str(k), []):
+            lst = getattr(o, "l%d" % li)
+            lst.clear()
+            for t in tags:
+                lst.append(ns["_E"](t))
         try:
             o.randomize()
             rec["outcome"] = "ok"
@@ -48,11 +55,11 @@ def run(sc):
             lst = getattr(o, "l%d" % i)
             v = {"len": len(lst), "size": int(lst.size)}
             try:
-                v["iter"] = [[int(e.a), int(e.b)] for e in lst]
+                v["iter"] = [[int(e.a), int(e.b), int(e.tag)] for e in lst]
             except Exception as e:  # noqa
                 v["iter"] = "exc:" + type(e).__name__
             try:
-                v["index"] = [[int(lst[j].a), int(lst[j].b)] for j in range(min(v["len"], 64))]
+                v["index"] = [[int(lst[j].a), int(lst[j].b), int(lst[j].tag)] for j in range(min(v["len"], 64))]
             except Exception as e:  # noqa
                 v["index"] = "exc:" + type(e).__name__
             views.append(v)
